@@ -383,6 +383,7 @@ def _rform(vec):
 
 def gen_cases(tier, seed):
     thorough = tier == "thorough"
+    yield from _rerun_cases(tier, seed)
     for shape in SHAPES:
         N = len(shape)
         perms = [list(p) for p in itertools.permutations(range(N))]
@@ -455,6 +456,75 @@ def gen_cases(tier, seed):
 
 def run_case(case, ctx):
     globals()["_run_" + case["check"]](case, ctx)
+
+
+# ---------------------------------------------------------------------------
+# depth-2 histories on the data object: decompose, edit one entry of the same tensor object in place, decompose again.
+# The second result must be the one a fresh tensor holding the edited array gets (nothing derived from the data
+# before the edit - a memoised norm, Gram matrix, unfolding - may survive it).
+
+
+def _rerun_cases(tier, seed):
+    for shape in SHAPES:
+        N = len(shape)
+        for d in members(shape, tier, seed, "tucker")[: (3 if tier == "thorough" else 1)]:
+            for alg in ("hosvd", "hosvd_ranks", "tucker_list", "tucker_nvecs"):
+                for cell in ("first", "last"):
+                    yield {"check": "rerun", "data": d, "shape": list(shape), "alg": alg, "cell": cell}
+
+
+def _rerun_call(T, A, alg):
+    import pyttb as ttb
+
+    N = A.ndim
+    rvec = [min(2, s) for s in A.shape]
+    buf = io.StringIO()
+    with warnings.catch_warnings(record=True), contextlib.redirect_stdout(buf):
+        warnings.simplefilter("always")
+        if alg == "hosvd":
+            R = ttb.hosvd(T, 0.3, verbosity=0)
+            return [np.array(R.core.data)] + [np.array(f) for f in R.factor_matrices], None
+        if alg == "hosvd_ranks":
+            R = ttb.hosvd(T, 1e-8, verbosity=0, ranks=list(rvec))
+            return [np.array(R.core.data)] + [np.array(f) for f in R.factor_matrices], None
+        if alg == "tucker_nvecs":
+            M, _, out = ttb.tucker_als(T, list(rvec), init="nvecs", maxiters=2, stoptol=0, printitn=0)
+        else:
+            iobj, _ = _init_objects({"kind": "list", "salt": 0}, A.shape, rvec, list(range(N)))
+            M, _, out = ttb.tucker_als(T, list(rvec), init=iobj, maxiters=2, stoptol=0, printitn=0)
+        return [np.array(M.core.data)] + [np.array(f) for f in M.factor_matrices], float(out["fit"])
+
+
+def _run_rerun(case, ctx):
+    A = data_array(case["data"])
+    alg = case["alg"]
+    cell = tuple(0 for _ in A.shape) if case["cell"] == "first" else tuple(s - 1 for s in A.shape)
+    B = A.copy()
+    B[cell] = B[cell] + 3.0
+    ctx.state()
+    op = "hosvd" if alg.startswith("hosvd") else "tucker_als"
+    try:
+        with FixedArpackStart(ctx):
+            T = _make_tensor(A, None)
+            ctx.tick()
+            _rerun_call(T, A, alg)
+            T[cell] = float(B[cell])
+            ctx.tick()
+            got, gfit = _rerun_call(T, B, alg)
+            ctx.tick()
+            want, wfit = _rerun_call(_make_tensor(B, None), B, alg)
+    except Exception as e:  # noqa: BLE001
+        ctx.inadm()
+        ctx.count("rerun_raised_" + type(e).__name__)
+        return
+    ctx.nontriv()
+    same = len(got) == len(want) and all(g.shape == w.shape and np.array_equal(g, w) for g, w in zip(got, want))
+    if not same or gfit != wfit:
+        dev = max((float(np.max(np.abs(g - w))) if g.shape == w.shape and g.size else float("nan")) for g, w in zip(got, want))
+        ctx.fail(op, "history_dependent",
+                 f"{alg} on a tensor edited in place after an earlier {alg} differs from {alg} on a fresh tensor with the "
+                 f"same entries: max deviation {dev!r}, fit {gfit!r} vs {wfit!r}", variant="rerun:" + alg, case=case)
+    ctx.outcome(got)
 
 
 # ---------------------------------------------------------------------------
